@@ -34,6 +34,9 @@ structure St where
   srcs : List Src := []            -- creation order
   managed : List Nat := []         -- innermost first
   pool : List (Bytes × Bytes) := []
+  /-- quiet mode: open transactions are observed through Len and Has only (Txn.Iter on a write transaction takes a
+      snapshot, which resets the writable cache and would hide aliasing through it) -/
+  quiet : Bool := false
   mOut : List String := []
   sOut : List String := []
   tags : List String := []
@@ -54,6 +57,16 @@ def obsStore (pool : List (Bytes × Bytes)) (s : Spec.Store) : String :=
       | some toks => if (s.get m toks).isSome then "1" else "0"
       | none => "0")
 
+def obsTreeQ (pool : List (Bytes × Bytes)) (t : Tree) : String :=
+  toString t.size ++ "/-/" ++ String.join (pool.map fun (m, p) => if (t.has m p).isSome then "1" else "0")
+
+def obsStoreQ (pool : List (Bytes × Bytes)) (s : Spec.Store) : String :=
+  toString s.length ++ "/-/" ++
+    String.join (pool.map fun (m, p) =>
+      match tokenize p with
+      | some toks => if (s.get m toks).isSome then "1" else "0"
+      | none => "0")
+
 def obsAll (st : St) : String × String :=
   let r0 := "R" ++ (if st.m.mu.isSome then "1" else "0") ++ "/" ++ obsTree st.pool st.m.published
   let s0 := "R" ++ (if st.s.writerOpen then "1" else "0") ++ "/" ++ obsStore st.pool st.s.pub
@@ -61,12 +74,14 @@ def obsAll (st : St) : String × String :=
     let mo := match st.m.find src.mid with
       | none => "?"
       | some x => if x.settled then "settled" else
-          if src.kind == Kind.iter then join (x.tree.all.map showEntry) "+" else obsTree st.pool x.tree
+          if src.kind == Kind.iter then join (x.tree.all.map showEntry) "+"
+          else if st.quiet then obsTreeQ st.pool x.tree else obsTree st.pool x.tree
     let so := match st.s.find src.sid with
       | none => "?"
       | some x => match x.store with
         | none => "settled"
-        | some sto => if src.kind == Kind.iter then join (sortStrings (sto.map showEntry)) "+" else obsStore st.pool sto
+        | some sto => if src.kind == Kind.iter then join (sortStrings (sto.map showEntry)) "+"
+          else if st.quiet then obsStoreQ st.pool sto else obsStore st.pool sto
     (acc.1 ++ "~" ++ toString src.cid ++ "=" ++ mo, acc.2 ++ "~" ++ toString src.cid ++ "=" ++ so)) (r0, s0)
 
 def St.emit (st : St) (m s : String) : St :=
@@ -251,7 +266,9 @@ def parsePool (s : String) : List (Bytes × Bytes) :=
 def handle (fields : List String) : String :=
   match fields with
   | [_, steps, pool] =>
-    let st := (splitNonEmpty steps ";").foldl step { pool := parsePool pool }
+    let quiet := pool.startsWith "q!"
+    let pool := if quiet then (pool.drop 2).toString else pool
+    let st := (splitNonEmpty steps ";").foldl step { pool := parsePool pool, quiet := quiet }
     "M=" ++ join st.mOut.reverse "|" ++ "\tS=" ++ join st.sOut.reverse "|" ++ "\tT=" ++ join st.tags.reverse ","
   | _ => "M=bad-case"
 
